@@ -80,7 +80,7 @@ Ref(it) ==
 
 SignOf(bs) == IF BitsOf(bs) = Zero(8 * Len(bs)) THEN 0 ELSE IF Msb(BitsOf(bs)) = 1 THEN -1 ELSE 1
 (* observed: it.ret (8 bytes: low then high result register), it.m1, it.raised, it.base (4 bytes: address of the region), it.rw (width of the result register in bytes) *)
-Verdict(it) ==
+OVerdict(it) ==
   IF it.raised # "" THEN "bad:raised:" \o it.raised
   ELSE LET r == Ref(it) IN
        IF r.k = "v64" /\ BitsOf(it.ret) # r.v THEN "bad:result"
